@@ -2409,6 +2409,9 @@ impl TxParticipant {
             }
         }
 
+        #[cfg(neumann_verif)]
+        tensor_store::verif_hooks::yield_point("dtx.part.prepare.locking");
+
         // Try to acquire locks
         let lock_handle = match self.locks.try_lock(request.tx_id, &all_lock_keys) {
             Ok(handle) => handle,
@@ -2424,6 +2427,9 @@ impl TxParticipant {
                 };
             },
         };
+
+        #[cfg(neumann_verif)]
+        tensor_store::verif_hooks::yield_point("dtx.part.prepare.locked");
 
         // Capture undo log using the keys apply_operations writes in TensorStore.
         // This ensures rollback operates on the correct keys
@@ -2627,6 +2633,8 @@ impl TxParticipant {
                 };
             }
 
+            #[cfg(neumann_verif)]
+            tensor_store::verif_hooks::yield_point("dtx.part.commit.applied");
             self.locks.release_by_handle(tx.lock_handle);
             tracing::info!(
                 tx_id = tx_id,
@@ -2668,6 +2676,8 @@ impl TxParticipant {
                 }
             }
 
+            #[cfg(neumann_verif)]
+            tensor_store::verif_hooks::yield_point("dtx.part.abort.undone");
             self.locks.release_by_handle(tx.lock_handle);
             tracing::info!(
                 tx_id = tx_id,
